@@ -14,7 +14,18 @@ pub fn run(a: &Args) {
     let op = a.str("op").to_string();
     let x = a.usize("a");
     let y = a.opt_u128("b").map(|v| v as usize);
-    let mut husks: Vec<lc::Husk> = (0..n).map(|_| lc::husk(None, 2)).collect();
+    // remote=i:j : cell i carries a remote id (node 7) whose pid equals cell j's pid (j < i)
+    let remote: Option<(usize, usize)> = a.str("remote").split_once(':').map(|(i, j)| (i.parse().unwrap(), j.parse().unwrap()));
+    let mut husks: Vec<lc::Husk> = Vec::new();
+    for i in 0..n {
+        match remote {
+            Some((ri, rj)) if ri == i => {
+                let pid = husks[rj].cell.get_id().pid();
+                husks.push(lc::husk_remote(7, pid, 2));
+            }
+            _ => husks.push(lc::husk(None, 2)),
+        }
+    }
     for h in husks.iter_mut() {
         h.forget_guard();
     }
@@ -31,14 +42,14 @@ pub fn run(a: &Args) {
     for (i, s) in statuses.iter().enumerate() {
         lc::verif_force_status(&husks[i].cell, *s);
     }
-    let pids: Vec<u64> = husks.iter().map(|h| h.cell.get_id().pid()).collect();
-    let idx = |pid: u64| pids.iter().position(|p| *p == pid).map(|i| i.to_string()).unwrap_or_else(|| "?".into());
+    let ids: Vec<ractor::ActorId> = husks.iter().map(|h| h.cell.get_id()).collect();
+    let idx = |id: ractor::ActorId| ids.iter().position(|p| *p == id).map(|i| i.to_string()).unwrap_or_else(|| "?".into());
     let mut ret = String::from("-");
     match op.as_str() {
         "link" => ret = (lc::verif_link(&husks[x].cell, &husks[y.unwrap()].cell) as u8).to_string(),
         "unlink" => husks[x].cell.unlink(husks[y.unwrap()].cell.clone()),
         "take" => {
-            let mut v: Vec<String> = lc::verif_take_children(&husks[x].cell).iter().map(|c| idx(c.get_id().pid())).collect();
+            let mut v: Vec<String> = lc::verif_take_children(&husks[x].cell).iter().map(|c| idx(c.get_id())).collect();
             v.sort();
             ret = v.join("+");
         }
@@ -50,12 +61,12 @@ pub fn run(a: &Args) {
         let kids = match lc::verif_children(&husks[i].cell) {
             None => "closed".to_string(),
             Some(mut v) => {
-                let mut k: Vec<String> = v.drain(..).map(|c| idx(c.get_id().pid())).collect();
+                let mut k: Vec<String> = v.drain(..).map(|c| idx(c.get_id())).collect();
                 k.sort();
                 k.join("+")
             }
         };
-        let s = husks[i].cell.try_get_supervisor().map(|c| idx(c.get_id().pid())).unwrap_or_else(|| "-".into());
+        let s = husks[i].cell.try_get_supervisor().map(|c| idx(c.get_id())).unwrap_or_else(|| "-".into());
         println!("cell{}=children:{};sup:{};killed:{};status:{}", i, kids, s, lc::verif_signal_taken(&husks[i].cell) as u8, husks[i].cell.get_status() as u8);
     }
 }
